@@ -10,7 +10,6 @@ import (
 	"errors"
 	"testing"
 
-	"github.com/nuts-foundation/nuts-node/crypto/jwx"
 	"pgregory.net/rapid"
 	"verif.local/h"
 	"verif.local/h/jose"
@@ -24,7 +23,7 @@ type c17JwxCase struct {
 func c17JwxWorld() jose.World {
 	return jose.World{
 		KeyRef:  "kid",
-		Allowed: jwx.SupportedAlgorithmsAsStrings(),
+		Allowed: jose.NodeAllowed,
 		Kids: map[string]string{jose.Victim: "did:web:example.com:iam:victim#key-1", jose.Attacker: "did:web:example.com:iam:attacker#key-1",
 			"unknown": "did:web:example.com:iam:nobody#key-1"},
 		Header:  jose.Header{jose.Str("typ", "JWT")},
